@@ -291,11 +291,28 @@ def io_covered(qt, m_in):
 def gen_cases(rng, n):
   ship = gr.shipped()
   for k in range(n):
+    if k % 27 == 20 and os.environ.get('VERIF_PROP') == 'C01':
+      # OP REPLACEMENT (emulated sub-channel, reachable with skip_checks=True): not modelled in
+      # Coq; the returned model is checked by the C01 oracles only
+      from ai_edge_quantizer import qtyping as _q
+      mb, info = gg.fc3d_model(rng)
+      qt = quantizer.Quantizer(bytearray(mb))
+      try:
+        qt.update_quantization_recipe(
+            '.*', 'FULLY_CONNECTED',
+            _q.OpQuantizationConfig(None, _q.TensorQuantizationConfig(
+                8, True, _q.QuantGranularity.BLOCKWISE, block_size=rng.choice([4, 8])),   # (4-bit: the runtime has no INT4 BATCH_MATMUL; skip_checks is the user's risk)
+                                    _q.ComputePrecision.FLOAT, True, skip_checks=True),
+            'min_max_uniform_quantize')
+        yield mb, qt, None, 'blockwise+skip_checks', dict(info, real_stats=True, unmodelled=True)
+      except ValueError:
+        pass
+      continue
     fan = rng.choice([3, 3, 4]) if k % 9 == 4 else 0
     alias = (k % 9 == 7)     # directed: one tensor under two graph outputs x static recipe
     # directed: the model also RETURNS one of its constants (F27) — C01's stream only: the
     # consequences of F27 would otherwise show up under C03/C04/C08 as well
-    const_out = (k % 27 == 11) and os.environ.get('VERIF_PROP', 'C01') == 'C01'
+    const_out = (k % 27 == 11) and os.environ.get('VERIF_PROP') == 'C01'
     gg.DUP_PROB = 1.0 if alias else 0.06
     gg.CONST_OUTPUT_PROB = 1.0 if const_out else 0.0
     try:
@@ -395,6 +412,20 @@ def main():
   for mb, qt, stats, desc, info in gen_cases(rng, n_models):
     m_in = og.read(mb)
     ctx = Ctx()
+    if info.get('unmodelled'):
+      dist['unmodelled_op_replacement'] += 1
+      try:
+        ob = qt.quantize(None).quantized_model
+      except Exception as e:  # pylint: disable=broad-except
+        dist['unmodelled_raises'] += 1
+        continue
+      bad = og.check_wf(og.read(ob))
+      r = og.run_interpreter(ob)
+      if r[0] != 'ok':
+        bad.append(('C01:interp-' + r[0], str(r[1])[:200]))
+      for key_, msg_ in bad[:3]:
+        viol.append({'key': key_, 'what': msg_, 'input': {'recipe': desc, 'model_hex': mb.hex()}})
+      continue
     dist['cases'] += 1
     dist[f'subgraphs={info["n_subgraphs"]}'] += 1
     try:
@@ -451,6 +482,11 @@ def main():
             # F27: a constant that is also a graph output is quantized as an ACTIVATION
             # for the OUTPUT rule although a kernel reads it as weight / bias
             bad.append(('C01:interp:constant-graph-output', msg[:200]))
+          elif r[0] == 'abort' and og.addsub_multiplier_overflow(m_out):
+            # F28: output range of an ADD/SUB far below its inputs' (x + (-x)): the
+            # kernel's real_output_multiplier >= 1 and Prepare CHECK-aborts
+            bad.append(('C01:interp:addsub-output-multiplier-ge-one',
+                        f'{og.addsub_multiplier_overflow(m_out)}: {msg[:160]}'))
           else:
             bad.append(('C01:interp-' + r[0], msg[:200]))
       for key, msg in bad[:2]:
